@@ -11,12 +11,17 @@ between the directions), which calls are issued when, where reads are cut and wh
   two clients) stays shared, as it is in production.
 * application idiom: `r = yield self.call(remote(event, name, channel=...), *channels)` in a generator handler (the waiting
   handler) or `v = self.fire(remote(...))` and reading `v.value` later; server -> client calls return `node.server.send(event, sock)`
-  from a handler.  The peer's handler identifies the call by a token in args[0], records what it saw and returns / yields / raises.
+  from a handler, or forward the event they are handling (`job`: the auto_remote_event idiom, done with the server API).  Fire-and-forget
+  events go out through `Server.send(ev, sock, no_result=True)`, `send_to` and `send_all` (the only public no-result API), interleaved
+  with awaited calls on the same connection.  The peer's handler identifies the call by a token in args[0], records what it saw and
+  returns / yields / raises.
 * faults: `short_read` on every node socket in both directions (tiny reads, uniform cuts, cuts inside the delimiter, cuts inside a
   multi-byte character of raw-peer packets), packets larger than the 4096 byte read buffer, coalesced packets, `peer_abort` (raw peer
   closes with unread data; a client process dies), and a hostile raw `simnet.Peer` that speaks the wire format to the server:
   valid calls (with protected meta keys), mutated JSON, truncated and oversized packets, invalid UTF-8, value packets with foreign
-  ids, meta keys from a grammar.
+  ids, meta keys from a grammar.  The raw peer can also be the CALLEE of server -> client calls: it parses the call packets it receives
+  and answers with result packets from a grammar (right id + meta keys of the three classes, error flag, wrong id first, duplicate
+  answer, answer in pieces, no answer).
 
 Oracle (clauses of the statement; keys in parentheses):
   * each legitimate event's handler ran exactly once, in the right process (C19/exactly-once/...), with equal name / args / kwargs /
@@ -32,6 +37,11 @@ Oracle (clauses of the statement; keys in parentheses):
     events delivered to handlers keep the invariants of dispatcher attributes and never show a value the raw peer put into `meta`
     (C19/hostile/dispatcher-attribute-overwritten/...), plain valid calls of the raw peer are executed once and answered on its own
     connection, and a legitimate call issued after the hostile traffic still completes (C19/hostile/...).
+  * fire-and-forget events run exactly once per connection they were sent on (C19/exactly-once/no-result-event-...), and the answers the
+    peer sends for them never reach an awaited call: every awaited call obtains exactly its own handler's result;
+  * after a result packet of the raw peer the local event that waited for it has the dispatcher attributes it had before it was sent
+    (C19/hostile/waiting-event-attribute-overwritten/...), its value is a Value, the waiting handler obtained the plain value the packet
+    carried or its error flag (C19/hostile/result-value-forged), and an event forwarded while being handled completes locally.
 When a call fails, the key is refined from ground truth (was one of its packets cut by a read boundary, did its payload contain the
 delimiter, did a foreign value packet with its id arrive on another connection, ...), so that distinct root causes get distinct keys.
 """
@@ -66,7 +76,7 @@ LEVEL_NOTE = ('trusted: SimSocket/AF_UNIX delivery, the per-process swap of the 
 RULE = ('each run = topology (one client / one client process with two peers / two client processes, optional raw peer) + firewalls + '
         '1..N calls with generated JSON payloads + schedule + read cuts + hostile packets, all from one tape; non-trivial = at least two '
         'legitimate calls were issued of which one was in flight together with another or larger than the read buffer, or a read was cut, or a '
-        'hostile packet was sent; distinct = digest of the (call, dispatch, completion, hostile action) log')
+        'hostile packet was sent, or a fire-and-forget event was sent; distinct = digest of the (call, dispatch, completion, hostile action) log')
 STATE_MEASURE = '(topology, calls in flight when a call was issued, packet size class, cut class of the read that carried it, hostile packet class)'
 REAL = ['circuits.node.Node / Server / Client / Protocol / utils (dump/load event and value)', 'circuits.net.sockets.TCPServer / TCPClient',
         'circuits.core.pollers.Select / Poll / EPoll (real select/poll/epoll, timeout 0)', 'circuits.core.manager.Manager (tick, call/wait, tasks)',
@@ -81,6 +91,9 @@ ASSUMPTIONS = ['the `success` flag of a received event is forced to True by Prot
                'hostile packets never use event names of the framework itself (close, stopped, ...): without a firewall a peer may fire any event by design',
                'a raw peer is owed executions / answers only for the plain valid calls (no meta keys) it sends before its first malformed packet; a call with hostile meta keys may '
                'be executed or dropped (only the attributes of the dispatched event are judged); afterwards the peer only must not harm the loop or other connections',
+               'fire-and-forget events are sent from the server side only (Server.send(no_result=True) / send_to / send_all are the only public no-result API)',
+               'when the raw peer answers one call twice (duplicate answer, or a value packet of its own with that id) the value the waiting handler obtains is not judged; '
+               'free (non-dispatcher) meta keys of a result packet may or may not be copied to the waiting event',
                'server -> client calls always carry explicit channels (an empty channel tuple is replaced by the receiver, which the statement does not cover)']
 PROBES = ['call:c2s', 'call:s2c', 'call:concurrent', 'call:big', 'completed', 'fault:short_read', 'cut:in-delimiter', 'cut:tiny', 'cut:uniform',
           'cut:in-multibyte', 'packet:split', 'fw:send-blocked', 'fw:recv-blocked', 'topo:B1', 'topo:B2', 'topo:BC', 'hostile:valid', 'hostile:mutated',
@@ -1589,7 +1602,7 @@ def run_one(ctx):
         sim.run()
         legit = [c for c in sim.calls if not c.probe]
         ctx.nontrivial = (len(legit) >= 2 and any(c.concurrent or 'big' in c.feats for c in legit)) or ctx.stats.get('fault:short_read', 0) > 0 \
-            or sim.hostile_sent > 0
+            or sim.hostile_sent > 0 or bool(sim.notes)
         ctx.sim_time = W.now - world.EPOCH
         # seam sanity: the per-process tables must be what Protocol instances actually use
         for cls, name in SHARED:
